@@ -24,6 +24,7 @@ import numpy as np
 ID = "C18"
 FLAVOUR = "plain"
 LEVEL = "exploration"
+THOROUGH_MULT = 4.0       # deepens the sampled strata of the thorough tier (measured: about ten minutes on 16 cores)
 RULE = (
     "seeded generator, one molecule / SD file / RDKit conversion per case.  Molecules: 1-1500 atoms (strata "
     "mol_limits forces atom and bond counts 997..1003 in every combination, plus <1000 atoms with >=1000 bonds), "
